@@ -598,6 +598,7 @@ main(int argc, char **argv) {
 	_lou_verif.alloc = hookAlloc;
 	_lou_verif.arena = hookArena;
 	_lou_verif.tick = hookTick;
+	baseFds = countOpenFds();
 	if (argc > 1 && chdir(argv[1]) != 0) {
 		perror("chdir");
 		return 2;
